@@ -504,7 +504,7 @@ def invMod2kVartime (n : Nat) (a : List Sec) (k : Nat) : L (List Sec × Sec) := 
     pure (x', b')) (zeros n, uone n)
   pure (st.1, isSome)
 
-/-! ## Montgomery multiplication (src/modular/{reduction,mul}.rs) -/
+/-! ## Montgomery reduction (src/modular/reduction.rs) -/
 
 def redcLowerLoop (n i : Nat) (u : Sec) (m lower : List Sec) (carry : Sec) : L (List Sec × Sec) :=
   forRange 1 (n - i) (fun j st => do
@@ -533,63 +533,6 @@ def redcInner (n : Nat) (lower upper m : List Sec) (negInv : Sec) : L (List Sec 
 def montgomeryReduction (n : Nat) (lower upper m : List Sec) (negInv : Sec) : L (List Sec) := do
   let st ← redcInner n lower upper m negInv
   subModWithCarry n st.2.1 st.2.2 m m
-
-/-- `mul_montgomery_form` -/
-def mulMont (n : Nat) (a b m : List Sec) (negInv : Sec) : L (List Sec) := do
-  let p ← mulSchoolbook n n a b
-  montgomeryReduction n p.1 p.2 m negInv
-
-/-! ## Exponentiation (src/modular/pow.rs): fixed 4-bit windows, masked table lookup -/
-
-/-- `compute_powers`: `powers[i] = powers[i-1] * x`, 16 entries -/
-def computePowers (n : Nat) (x m one' : List Sec) (negInv : Sec) : L (List (List Sec)) :=
-  forRange 2 16 (fun i ps => do
-    pubIndex i
-    let p ← mulMont n (ps.getD (i - 1) []) x m negInv
-    pure (ps.set i p)) ((List.replicate 16 one').set 1 x)
-
-/-- "Constant-time lookup in the array of powers": all 16 entries are read, the right one kept under a mask. -/
-def powLookup (n : Nat) (powers : List (List Sec)) (idx : Sec) : L (List Sec) :=
-  forRange 1 16 (fun j power => do
-    pubIndex j
-    uselect n power (powers.getD j []) (maskEq (ofNat j) idx)) (powers.getD 0 [])
-
-/-- the lookup as it must NOT be written: `powers[idx]` -/
-def powLookupLeaky (powers : List (List Sec)) (idx : Sec) : L (List Sec) := do
-  let j ← indexBy idx
-  pure (powers.getD j [])
-
-def squarings (n : Nat) (z m : List Sec) (negInv : Sec) : L (List Sec) :=
-  forN 4 (fun _ z => do let p ← mulSchoolbook n n z z; montgomeryReduction n p.1 p.2 m negInv) z
-
-/-- one window: 4 squarings (skipped for the very first window — a PUBLIC condition), lookup, multiply -/
-def powWindow (n : Nat) (powers : List (List Sec)) (e m : List Sec) (negInv : Sec)
-    (limbNum windowNum : Nat) (first : Bool) (firstMask : Nat) (z : List Sec) : L (List Sec) := do
-  pubCond first
-  let z1 ← if first then pure z else squarings n z m negInv
-  pubIndex limbNum
-  let idx0 := and (shrPub (limb e limbNum) (windowNum * 4)) (ofNat 15)
-  let idx := if first then and idx0 (ofNat firstMask) else idx0
-  let power ← powLookup n powers idx
-  mulMont n z1 power m negInv
-
-/-- the two nested window loops: limbs from `sl` down to 0, windows from the top one down to 0 -/
-def powLoop (n : Nat) (powers : List (List Sec)) (e m : List Sec) (negInv : Sec) (sl sw fm : Nat) (z : List Sec) : L (List Sec) :=
-  forDown (sl + 1) (fun limbNum z =>
-    forDown (if limbNum = sl then sw + 1 else 16) (fun windowNum z =>
-      powWindow n powers e m negInv limbNum windowNum (decide (limbNum = sl ∧ windowNum = sw)) fm z) z) z
-
-/-- `pow_bounded_exp(exponent, exponent_bits)`: `exponent_bits` is PUBLIC ("this value is leaked in the time
-pattern"); base and exponent are secret. -/
-def powBoundedExp (n : Nat) (x e : List Sec) (ebits : Nat) (m one' : List Sec) (negInv : Sec) : L (List Sec) := do
-  pubCond (decide (ebits = 0))
-  if ebits = 0 then pure one' else do
-    let powers ← computePowers n x m one' negInv
-    powLoop n powers e m negInv ((ebits - 1) / 64) (((ebits - 1) % 64) / 4) (2 ^ (((ebits - 1) % 64) % 4 + 1) - 1) one'
-
-/-- `pow(exponent)` = `pow_bounded_exp(exponent, BITS)` -/
-def pow (n : Nat) (x e m one' : List Sec) (negInv : Sec) : L (List Sec) :=
-  powBoundedExp n x e (64 * n) m one' negInv
 
 /-! ## Square root, constant-time variant (src/uint/sqrt.rs:10-43) -/
 
@@ -914,6 +857,70 @@ def checkedSquare (n : Nat) (a : List Sec) : L (List Sec × Sec) := do
   let e ← ueq n p.2 (zeros n)
   pure (p.1, e)
 
+
+/-! ## Montgomery multiplication and exponentiation (src/modular/{mul,pow}.rs) — on top of `split_mul` / `square_wide` -/
+
+/-- `mul_montgomery_form` = `montgomery_reduction(a.split_mul(b))` (Karatsuba at 16/32/64/128 limbs through `split_mul`) -/
+def mulMont (n : Nat) (a b m : List Sec) (negInv : Sec) : L (List Sec) := do
+  let p ← splitMul n n a b
+  montgomeryReduction n p.1 p.2 m negInv
+
+/-- `square_montgomery_form` = `montgomery_reduction(a.square_wide())` -/
+def squareMont (n : Nat) (a m : List Sec) (negInv : Sec) : L (List Sec) := do
+  let p ← squareWide n a
+  montgomeryReduction n p.1 p.2 m negInv
+
+/-! ### Exponentiation (src/modular/pow.rs): fixed 4-bit windows, masked table lookup -/
+
+/-- `compute_powers`: `powers[i] = powers[i-1] * x`, 16 entries -/
+def computePowers (n : Nat) (x m one' : List Sec) (negInv : Sec) : L (List (List Sec)) :=
+  forRange 2 16 (fun i ps => do
+    pubIndex i
+    let p ← mulMont n (ps.getD (i - 1) []) x m negInv
+    pure (ps.set i p)) ((List.replicate 16 one').set 1 x)
+
+/-- "Constant-time lookup in the array of powers": all 16 entries are read, the right one kept under a mask. -/
+def powLookup (n : Nat) (powers : List (List Sec)) (idx : Sec) : L (List Sec) :=
+  forRange 1 16 (fun j power => do
+    pubIndex j
+    uselect n power (powers.getD j []) (maskEq (ofNat j) idx)) (powers.getD 0 [])
+
+/-- the lookup as it must NOT be written: `powers[idx]` -/
+def powLookupLeaky (powers : List (List Sec)) (idx : Sec) : L (List Sec) := do
+  let j ← indexBy idx
+  pure (powers.getD j [])
+
+def squarings (n : Nat) (z m : List Sec) (negInv : Sec) : L (List Sec) :=
+  forN 4 (fun _ z => squareMont n z m negInv) z
+
+/-- one window: 4 squarings (skipped for the very first window — a PUBLIC condition), lookup, multiply -/
+def powWindow (n : Nat) (powers : List (List Sec)) (e m : List Sec) (negInv : Sec)
+    (limbNum windowNum : Nat) (first : Bool) (firstMask : Nat) (z : List Sec) : L (List Sec) := do
+  pubCond first
+  let z1 ← if first then pure z else squarings n z m negInv
+  pubIndex limbNum
+  let idx0 := and (shrPub (limb e limbNum) (windowNum * 4)) (ofNat 15)
+  let idx := if first then and idx0 (ofNat firstMask) else idx0
+  let power ← powLookup n powers idx
+  mulMont n z1 power m negInv
+
+/-- the two nested window loops: limbs from `sl` down to 0, windows from the top one down to 0 -/
+def powLoop (n : Nat) (powers : List (List Sec)) (e m : List Sec) (negInv : Sec) (sl sw fm : Nat) (z : List Sec) : L (List Sec) :=
+  forDown (sl + 1) (fun limbNum z =>
+    forDown (if limbNum = sl then sw + 1 else 16) (fun windowNum z =>
+      powWindow n powers e m negInv limbNum windowNum (decide (limbNum = sl ∧ windowNum = sw)) fm z) z) z
+
+/-- `pow_bounded_exp(exponent, exponent_bits)`: `exponent_bits` is PUBLIC ("this value is leaked in the time
+pattern"); base and exponent are secret. -/
+def powBoundedExp (n : Nat) (x e : List Sec) (ebits : Nat) (m one' : List Sec) (negInv : Sec) : L (List Sec) := do
+  pubCond (decide (ebits = 0))
+  if ebits = 0 then pure one' else do
+    let powers ← computePowers n x m one' negInv
+    powLoop n powers e m negInv ((ebits - 1) / 64) (((ebits - 1) % 64) / 4) (2 ^ (((ebits - 1) % 64) % 4 + 1) - 1) one'
+
+/-- `pow(exponent)` = `pow_bounded_exp(exponent, BITS)` -/
+def pow (n : Nat) (x e m one' : List Sec) (negInv : Sec) : L (List Sec) :=
+  powBoundedExp n x e (64 * n) m one' negInv
 
 /-! ## Int (src/int/*.rs): two's complement over the same limbs; every sign decision is a mask -/
 
@@ -1738,5 +1745,368 @@ def ugcd (n : Nat) (a b : List Sec) : L (List Sec) := do
   let r ← safegcdGcd n f g
   let sh ← overflowingShl n r k
   uselect n (zeros n) sh.1 sh.2
+
+
+/-! ## Special-modulus forms, `double_mod`, `mul_mod`, `div_by_2` (src/uint/{add_mod,sub_mod,mul_mod}.rs,
+src/modular/{monty_form,div_by_2}.rs) -/
+
+/-- `Uint::from_word(w)`, `Uint::from_wide_word(lo, hi)` -/
+def fromWord (n : Nat) (w : Sec) : List Sec := (zeros n).set 0 w
+def fromWideWord (n : Nat) (lo hi : Sec) : List Sec := ((zeros n).set 0 lo).set 1 hi
+
+/-- `Uint::add_mod_special(rhs, c)` (modulus `2^BITS − c`): `adc(rhs, c)`, then subtract `(carry − 1) & c` -/
+def addModSpecial (n : Nat) (a b : List Sec) (c : Sec) : L (List Sec) := do
+  let o ← uadc n a b c
+  wrappingSub n o.1 (fromWord n (and (sub o.2 one) c))
+
+/-- `Uint::sub_mod_special(rhs, c)` -/
+def subModSpecial (n : Nat) (a b : List Sec) (c : Sec) : L (List Sec) := do
+  let o ← usbb n a b zero
+  wrappingSub n o.1 (fromWord n (and o.2 c))
+
+/-- `Uint::overflowing_shl1`: `(w[i] << 1) | carry`, carry = `w[i] >> 63` -/
+def overflowingShl1 (n : Nat) (a : List Sec) : L (List Sec × Sec) :=
+  forN n (fun i st => do
+    pubIndex i
+    pure (st.1 ++ [or (shlPub (limb a i) 1) st.2], shrPub (limb a i) 63)) ([], zero)
+
+/-- `Uint::double_mod(p)` -/
+def doubleMod (n : Nat) (a p : List Sec) : L (List Sec) := do
+  let w ← overflowingShl1 n a
+  let w2 ← usbb n w.1 p zero
+  let pm ← bitandLimb n p (Sec.sbb w.2 zero w2.2).2
+  wrappingAdd n w2.1 pm
+
+/-- `mac_by_limb(a, b, c, carry)`: `a[i] = a[i] + b[i]·c + carry` -/
+def macByLimb (n : Nat) (a b : List Sec) (c carry : Sec) : L (List Sec × Sec) :=
+  forN n (fun i st => do
+    pubIndex i
+    pure (st.1.set i (Sec.mac (limb st.1 i) (limb b i) c st.2).1, (Sec.mac (limb st.1 i) (limb b i) c st.2).2)) (a, carry)
+
+def remLimbLoop (n : Nat) (u : List Sec) (d recip r0 : Sec) : L Sec :=
+  forDown n (fun j r => do
+    pubIndex j
+    pure (div2by1 r (limb u j) d recip).2) r0
+
+/-- `Uint::rem_limb(rhs)` (`rem_limb_with_reciprocal` after `Reciprocal::new`) -/
+def remLimb (n : Nat) (u : List Sec) (rhs : Sec) : L Sec := do
+  let recip ← reciprocal (shl rhs (lz rhs))
+  let us ← shlLimb n u (lz rhs)
+  let r ← remLimbLoop n us.1 (shl rhs (lz rhs)) recip us.2
+  pure (shr r (lz rhs))
+
+/-- `mul_rem(a, b, d)`: `mulhilo`, then the two-limb remainder -/
+def mulRem (a b d : Sec) : L Sec := remLimb 2 [(Sec.mulWide a b).1, (Sec.mulWide a b).2] d
+
+/-- `Uint::mul_mod_special(rhs, c)`: the one-limb case via `mul_rem`, else Algorithm 14.47 on top of `split_mul` -/
+def mulModSpecial (n : Nat) (a b : List Sec) (c : Sec) : L (List Sec) := do
+  pubCond (decide (n = 1))
+  if n = 1 then do
+    pubIndex 0
+    let r ← mulRem (limb a 0) (limb b 0) (sub zero c)
+    pure (fromWord n r)
+  else do
+    let p ← splitMul n n a b
+    let m ← macByLimb n p.1 p.2 c zero
+    let s ← uadc n m.1 (fromWideWord n (Sec.mac c m.2 c zero).1 (Sec.mac c m.2 c zero).2) zero   -- `(carry + 1)·c` as a wide word
+    let r ← usbb n s.1 (fromWord n (and (sub s.2 one) c)) zero
+    pure r.1
+
+/-- `MontyParams::new(modulus)` (constant-time in the modulus at source level): `(one, r2, r3, mod_neg_inv, mod_leading_zeros)` -/
+def montyParamsNew (n : Nat) (modulus : List Sec) : L (List Sec × List Sec × List Sec × Sec × Sec) := do
+  let q ← udivRem n (umax n) modulus
+  let one' ← addMod n q.2 (uone n) modulus
+  let sq ← squareWide n one'
+  let w ← concatMixed n n (2 * n) sq.1 sq.2
+  let mw ← concatMixed n n (2 * n) modulus (zeros n)
+  let r ← udivRem (2 * n) w mw
+  let sp ← splitMixed (2 * n) n n r.2
+  let im ← invMod2kVartime n modulus 64
+  pubIndex 0
+  let lzs ← leadingZeros n modulus
+  let r2sq ← squareWide n sp.1
+  let r3 ← montgomeryReduction n r2sq.1 r2sq.2 modulus (sub zero (limb im.1 0))
+  pure (one', sp.1, r3, sub zero (limb im.1 0), select (ofNat 63) lzs (maskLt lzs (ofNat 63)))
+
+/-- `MontyForm::new(integer, params)`: `montgomery_reduction(integer.split_mul(r2))` -/
+def montyFormNew (n : Nat) (x r2 modulus : List Sec) (negInv : Sec) : L (List Sec) := do
+  let p ← splitMul n n x r2
+  montgomeryReduction n p.1 p.2 modulus negInv
+
+/-- `MontyForm::retrieve` -/
+def montyRetrieve (n : Nat) (x modulus : List Sec) (negInv : Sec) : L (List Sec) :=
+  montgomeryReduction n x (zeros n) modulus negInv
+
+/-- `Uint::mul_mod(rhs, p)` (`p` odd): `MontyParams::new(p)`, two conversions, one Montgomery product, `retrieve` -/
+def mulMod (n : Nat) (a b p : List Sec) : L (List Sec) := do
+  let params ← montyParamsNew n p
+  let xa ← montyFormNew n a params.2.1 p params.2.2.2.1
+  let xb ← montyFormNew n b params.2.1 p params.2.2.2.1
+  let prod ← mulMont n xa xb p params.2.2.2.1
+  montyRetrieve n prod p params.2.2.2.1
+
+/-- `div_by_2(a, modulus)` (`MontyForm::div_by_2`) -/
+def divBy2 (n : Nat) (a modulus : List Sec) : L (List Sec) := do
+  pubIndex 0
+  let s ← uadc n a modulus zero
+  let sel ← uselect n a s.1 (maskLsb (and (limb a 0) one))
+  let h ← shr1 n sel
+  setBit n h (ofNat (64 * n - 1)) (maskNonzero (select zero s.2 (maskLsb (and (limb a 0) one))))
+
+/-- `div_by_2_boxed_assign` -/
+def divBy2Boxed (n : Nat) (a modulus : List Sec) : L (List Sec) := do
+  pubIndex 0
+  let s ← boxedCondAdcAssign n n a modulus (maskLsb (and (limb a 0) one))
+  let h ← boxedShr1 n s.1
+  boxedSetBit n h (ofNat (64 * n - 1)) (maskLsb s.2)
+
+/-! ## Linear combination (src/modular/lincomb.rs): `impl_longa_monty_lincomb!` -/
+
+/-- innermost loop `k`: `(u[k], carry) = u[k].mac(a_i[j], b_i[k], carry)` -/
+def longaInner (n j : Nat) (ai bi u : List Sec) : L (List Sec × Sec) :=
+  forN n (fun k st => do
+    pubIndex k; pubIndex j
+    pure (st.1.set k (Sec.mac (limb st.1 k) (limb ai j) (limb bi k) st.2).1,
+          (Sec.mac (limb st.1 k) (limb ai j) (limb bi k) st.2).2)) (u, zero)
+
+/-- loop `i` over the `len` products; state = (u, hi, hi_carry) -/
+def longaProducts (n j len : Nat) (ab : List (List Sec × List Sec)) (u : List Sec) (hi : Sec) : L (List Sec × Sec × Sec) :=
+  forN len (fun i st => do
+    pubIndex i
+    let r ← longaInner n j (ab.getD i ([], [])).1 (ab.getD i ([], [])).2 st.1
+    pure (r.1, (Sec.adc st.2.1 r.2 zero).1, add st.2.2 (Sec.adc st.2.1 r.2 zero).2)) (u, hi, zero)
+
+/-- the reduction pass: `(u[i-1], carry) = u[i].mac(q, modulus[i], carry)` for `i in 1..n` -/
+def longaReduce (n : Nat) (u m : List Sec) (q c0 : Sec) : L (List Sec × Sec) :=
+  forRange 1 n (fun i st => do
+    pubIndex i; pubIndex (i - 1)
+    pure (st.1.set (i - 1) (Sec.mac (limb st.1 i) q (limb m i) st.2).1, (Sec.mac (limb st.1 i) q (limb m i) st.2).2)) (u, c0)
+
+/-- `impl_longa_monty_lincomb!(a_b[len], u, modulus, mod_neg_inv, n)` → (u, hi_carry) -/
+def longaLincomb (n len : Nat) (ab : List (List Sec × List Sec)) (u m : List Sec) (negInv : Sec) : L (List Sec × Sec) :=
+  forN n (fun j st => do
+    let p ← longaProducts n j len ab st.1 st.2
+    pubIndex 0
+    let r ← longaReduce n p.1 m (mul (limb p.1 0) negInv) (Sec.mac (limb p.1 0) (mul (limb p.1 0) negInv) (limb m 0) zero).2
+    pubIndex (n - 1)
+    pure (r.1.set (n - 1) (Sec.adc p.2.1 r.2 zero).1, add p.2.2 (Sec.adc p.2.1 r.2 zero).2)) (u, zero)
+
+/-- the windowed form: `ceil(len / max_accum)` windows of at most `max_accum = 2^mlz` products, each reduced and added -/
+def lincombWindows (n len : Nat) (ab : List (List Sec × List Sec)) (m : List Sec) (negInv : Sec) (mlz : Nat) : L (List Sec) :=
+  forN ((len + 2 ^ mlz - 1) / 2 ^ mlz) (fun w ret => do
+    let r ← longaLincomb n (min (2 ^ mlz) (len - w * 2 ^ mlz)) (ab.drop (w * 2 ^ mlz)) (zeros n) m negInv
+    let buf ← subModWithCarry n r.1 r.2 m m
+    addMod n ret buf m) (zeros n)
+
+/-- `lincomb_monty_form(products[len], modulus, mod_neg_inv, mod_leading_zeros)`: the number of products and
+`mod_leading_zeros` (a property of the PUBLIC modulus of the Montgomery parameters) decide between one pass and windows -/
+def lincombMonty (n len : Nat) (ab : List (List Sec × List Sec)) (m : List Sec) (negInv : Sec) (mlz : Nat) : L (List Sec) := do
+  pubCond (decide (len ≤ 2 ^ mlz))
+  if len ≤ 2 ^ mlz then do
+    let r ← longaLincomb n len ab (zeros n) m negInv
+    subModWithCarry n r.1 r.2 m m
+  else lincombWindows n len ab m negInv mlz
+
+/-! ## Multi-exponentiation (src/modular/pow.rs:31-177): `cnt` bases (a public count) -/
+
+/-- the per-base part of one window: masked lookup in that base's table, one Montgomery product -/
+def multiPowEntry (n : Nat) (pe : List (List Sec) × List Sec) (m : List Sec) (negInv : Sec)
+    (limbNum windowNum : Nat) (first : Bool) (firstMask : Nat) (z : List Sec) : L (List Sec) := do
+  pubIndex limbNum
+  let power ← powLookup n pe.1
+    (if first then and (and (shrPub (limb pe.2 limbNum) (windowNum * 4)) (ofNat 15)) (ofNat firstMask)
+     else and (shrPub (limb pe.2 limbNum) (windowNum * 4)) (ofNat 15))
+  mulMont n z power m negInv
+
+/-- `while i < powers_and_exponents.len()`: one entry after the other -/
+def multiPowEntries (n cnt : Nat) (pes : List (List (List Sec) × List Sec)) (m : List Sec) (negInv : Sec)
+    (limbNum windowNum : Nat) (first : Bool) (firstMask : Nat) (z : List Sec) : L (List Sec) :=
+  forN cnt (fun i z => do
+    pubIndex i
+    multiPowEntry n (pes.getD i ([], [])) m negInv limbNum windowNum first firstMask z) z
+
+def multiPowWindow (n cnt : Nat) (pes : List (List (List Sec) × List Sec)) (m : List Sec) (negInv : Sec)
+    (limbNum windowNum : Nat) (first : Bool) (firstMask : Nat) (z : List Sec) : L (List Sec) := do
+  pubCond first
+  let z1 ← if first then pure z else squarings n z m negInv
+  multiPowEntries n cnt pes m negInv limbNum windowNum first firstMask z1
+
+def multiPowLoop (n cnt : Nat) (pes : List (List (List Sec) × List Sec)) (m : List Sec) (negInv : Sec) (sl sw fm : Nat)
+    (z : List Sec) : L (List Sec) :=
+  forDown (sl + 1) (fun limbNum z =>
+    forDown (if limbNum = sl then sw + 1 else 16) (fun windowNum z =>
+      multiPowWindow n cnt pes m negInv limbNum windowNum (decide (limbNum = sl ∧ windowNum = sw)) fm z) z) z
+
+/-- `compute_powers` for every base -/
+def multiPowers (n cnt : Nat) (bes : List (List Sec × List Sec)) (m one' : List Sec) (negInv : Sec) :
+    L (List (List (List Sec) × List Sec)) :=
+  forN cnt (fun i acc => do
+    pubIndex i
+    let p ← computePowers n (bes.getD i ([], [])).1 m one' negInv
+    pure (acc ++ [(p, (bes.getD i ([], [])).2)])) []
+
+/-- `multi_exponentiate_montgomery_form_{array,slice}(bases_and_exponents[cnt], exponent_bits, …)` -/
+def multiExp (n cnt : Nat) (bes : List (List Sec × List Sec)) (ebits : Nat) (m one' : List Sec) (negInv : Sec) : L (List Sec) := do
+  pubCond (decide (ebits = 0))
+  if ebits = 0 then pure one' else do
+    let pes ← multiPowers n cnt bes m one' negInv
+    multiPowLoop n cnt pes m negInv ((ebits - 1) / 64) (((ebits - 1) % 64) / 4) (2 ^ (((ebits - 1) % 64) % 4 + 1) - 1) one'
+
+
+/-! ## `mul_mod_vartime` / `impl MulMod for Uint` (src/uint/mul_mod.rs:28-31,64-70; `rem_wide_vartime`, src/uint/div.rs:322-414):
+variable-time in the MODULUS — its bit length becomes a loop bound -/
+
+def shlLimbVartimeLoop (n : Nat) (a : List Sec) (shift limbsNum : Nat) : L (List Sec) :=
+  forDown (limbsNum - 1) (fun k r => do
+    pubIndex (k + 1); pubIndex k
+    pure (r.set (k + 1) (or (shlPub (limb a (k + 1)) shift) (shrPub (limb a k) (64 - shift))))) (zeros n)
+
+/-- `shl_limb_vartime(shift, limbs_num)`: both PUBLIC here (derived from the declassified bit length); (value, carry) -/
+def shlLimbVartime (n : Nat) (a : List Sec) (shift limbsNum : Nat) : L (List Sec × Sec) := do
+  pubCond (decide (shift = 0))
+  if shift = 0 then pure (a, zero) else do
+    pubIndex (limbsNum - 1)
+    let l ← shlLimbVartimeLoop n a shift limbsNum
+    pubIndex 0
+    pure (l.set 0 (shlPub (limb a 0) shift), shrPub (limb a (limbsNum - 1)) (64 - shift))
+
+def shrLimbVartimeLoop (n : Nat) (a : List Sec) (shift limbsNum : Nat) : L (List Sec) :=
+  forN (limbsNum - 1) (fun i r => do
+    pubIndex i; pubIndex (i + 1)
+    pure (r.set i (or (shrPub (limb a i) shift) (shlPub (limb a (i + 1)) (64 - shift))))) (zeros n)
+
+/-- `shr_limb_vartime(shift, limbs_num)` -/
+def shrLimbVartime (n : Nat) (a : List Sec) (shift limbsNum : Nat) : L (List Sec) := do
+  pubCond (decide (shift = 0))
+  if shift = 0 then pure a else do
+    let l ← shrLimbVartimeLoop n a shift limbsNum
+    pubIndex (limbsNum - 1)
+    pure (l.set (limbsNum - 1) (shrPub (limb a (limbsNum - 1)) shift))
+
+/-- `rem_limb_with_reciprocal_wide((lo, hi), Reciprocal::new(d))`: the single-limb-divisor route -/
+def remLimbWide (n : Nat) (lo hi : List Sec) (d : Sec) : L Sec := do
+  let recip ← reciprocal (shl d (lz d))
+  let ls ← shlLimb n lo (lz d)
+  let hs ← shlLimb n hi (lz d)
+  pubIndex 0
+  let r1 ← remLimbLoop n (hs.1.set 0 (or (limb hs.1 0) ls.2)) (shl d (lz d)) recip hs.2
+  let r2 ← remLimbLoop n ls.1 (shl d (lz d)) recip r1
+  pure (shr r2 (lz d))
+
+/-- `x[xi + i + 1 - yc] -= quo·y[i]` for `i < yc`; state = (x, carry, borrow) -/
+def rwSubLoop (xi yc : Nat) (y : List Sec) (quo : Sec) (x : List Sec) : L (List Sec × Sec × Sec) :=
+  forN yc (fun i st => do
+    pubIndex i; pubIndex (xi + i + 1 - yc)
+    pure (st.1.set (xi + i + 1 - yc) (Sec.sbb (limb st.1 (xi + i + 1 - yc)) (Sec.mac zero (limb y i) quo st.2.1).1 st.2.2).1,
+          (Sec.mac zero (limb y i) quo st.2.1).2,
+          (Sec.sbb (limb st.1 (xi + i + 1 - yc)) (Sec.mac zero (limb y i) quo st.2.1).1 st.2.2).2)) (x, zero, zero)
+
+/-- masked add-back; state = (x, carry) -/
+def rwAddLoop (xi yc : Nat) (y : List Sec) (ctBorrow : Sec) (x : List Sec) : L (List Sec × Sec) :=
+  forN yc (fun i st => do
+    pubIndex i; pubIndex (xi + i + 1 - yc)
+    pure (st.1.set (xi + i + 1 - yc) (Sec.adc (limb st.1 (xi + i + 1 - yc)) (select zero (limb y i) ctBorrow) st.2).1,
+          (Sec.adc (limb st.1 (xi + i + 1 - yc)) (select zero (limb y i) ctBorrow) st.2).2)) (x, zero)
+
+def rwShiftLoop (n : Nat) (x : List Sec) : L (List Sec) :=
+  forDown (n - 1) (fun k r => do
+    pubIndex (k + 1); pubIndex k
+    pure (r.set (k + 1) (limb r k))) x
+
+/-- `while i > 0 { x[i] = x[i - 1] }` then `x[0] = x_lo[extra]` -/
+def rwShiftIn (n : Nat) (x : List Sec) (w : Sec) : L (List Sec) := do
+  let l ← rwShiftLoop n x
+  pubIndex 0
+  pure (l.set 0 w)
+
+/-- trip `t` of the `loop` of `rem_wide_vartime`: the first `n` trips fetch a limb of the low half (`extra_limbs`),
+the remaining ones walk `xi` down to `yc − 1`; state = (x, x_hi).  Which kind a trip is depends on `t`, `n`, `yc` only -/
+def rwTrip (n yc t : Nat) (y xlo : List Sec) (recip : Sec) (st : List Sec × Sec) : L (List Sec × Sec) := do
+  pubIndex (if t < n then n - 1 else 2 * n - 1 - t); pubIndex ((if t < n then n - 1 else 2 * n - 1 - t) - 1); pubIndex (yc - 1); pubIndex (yc - 2)
+  let quo ← div3by2 st.2 (limb st.1 (if t < n then n - 1 else 2 * n - 1 - t)) (limb st.1 ((if t < n then n - 1 else 2 * n - 1 - t) - 1))
+              (limb y (yc - 1)) recip (limb y (yc - 2))
+  let s ← rwSubLoop (if t < n then n - 1 else 2 * n - 1 - t) yc y quo st.1
+  let a ← rwAddLoop (if t < n then n - 1 else 2 * n - 1 - t) yc y (Sec.sbb st.2 s.2.1 s.2.2).2 s.1
+  pubCond (decide (t < n))
+  if t < n then do
+    pubIndex (n - 1 - t)
+    let x' ← rwShiftIn n a.1 (limb xlo (n - 1 - t))
+    pure (x', limb a.1 (n - 1))
+  else do
+    pubCond (decide (2 * n - 1 - t = yc - 1))
+    if 2 * n - 1 - t = yc - 1 then pure (a.1, limb a.1 (2 * n - 1 - t))
+    else pure (a.1.set (2 * n - 1 - t) zero, limb a.1 (2 * n - 1 - t))
+
+/-- the `loop` of `rem_wide_vartime`: `2·LIMBS − yc + 1` trips -/
+def rwLoop (n yc : Nat) (y xlo : List Sec) (recip : Sec) (st : List Sec × Sec) : L (List Sec × Sec) :=
+  forN (2 * n - yc + 1) (fun t st => rwTrip n yc t y xlo recip st) st
+
+/-- `rem_wide_vartime` after `dbits = rhs.bits_vartime()` has become a public number: everything below is steered by
+`dbits` (and the limb count) only -/
+def remWideBody (n dbits : Nat) (lo hi d : List Sec) : L (List Sec) := do
+  pubCond (decide ((dbits + 63) / 64 = 1))
+  if (dbits + 63) / 64 = 1 then do
+    pubIndex 0
+    let r ← remLimbWide n lo hi (limb d 0)
+    pure (fromWord n r)
+  else do
+    let y ← shlLimbVartime n d ((64 - dbits % 64) % 64) ((dbits + 63) / 64)
+    let xl ← shlLimbVartime n lo ((64 - dbits % 64) % 64) n
+    let xh ← shlLimbVartime n hi ((64 - dbits % 64) % 64) n
+    pubCond (decide ((64 - dbits % 64) % 64 > 0))
+    pubIndex ((dbits + 63) / 64 - 1)
+    let recip ← reciprocal (limb y.1 ((dbits + 63) / 64 - 1))
+    let st ← rwLoop n ((dbits + 63) / 64) y.1 xl.1 recip
+      (if (64 - dbits % 64) % 64 > 0 then xh.1.set 0 (or (limb xh.1 0) xl.2) else xh.1, xh.2)
+    shrLimbVartime n st.1 ((64 - dbits % 64) % 64) ((dbits + 63) / 64)
+
+/-- `Uint::rem_wide_vartime((lo, hi), rhs)`: `dbits = rhs.bits_vartime()` is turned into loop bounds and shift amounts -/
+def remWideVartime (n : Nat) (lo hi d : List Sec) : L (List Sec) := do
+  let db ← bitsVartime n d
+  let dbits ← declassify db
+  remWideBody n dbits lo hi d
+
+/-- `Uint::mul_mod_vartime(rhs, p)` and — NOT named vartime — `<Uint as MulMod>::mul_mod(rhs, p)`, which forwards to it -/
+def mulModVartime (n : Nat) (a b p : List Sec) : L (List Sec) := do
+  let lh ← splitMul n n a b
+  remWideVartime n lh.1 lh.2 p
+
+/-! ## `random_mod` (src/uint/rand.rs:99-159): rejection sampling — the trace is a function of the modulus' bit length
+and of the accept / reject pattern of the RNG stream -/
+
+/-- `while hi_word > hi_word_modulus { hi_word = next_word() & mask }`: a BRANCH on a candidate word; state = (hi_word, stream) -/
+def rmHiLoop (fuel : Nat) (hiMod mask hi : Sec) (stream : List Sec) : L (Sec × List Sec) :=
+  whileFuel fuel (fun st => do
+    let gt ← branchOn (maskLt hiMod st.1)
+    if gt then pure (some (and (st.2.headD zero) mask, st.2.drop 1)) else pure none) (hi, stream)
+
+/-- `for i in 0..n_limbs - 1 { n[i] = next_word() }` -/
+def rmLowLoop (nl : Nat) (stream c : List Sec) : L (List Sec) :=
+  forN (nl - 1) (fun i c => do pubIndex i; pure (c.set i (limb stream i))) c
+
+/-- one trip of the outer `loop`: settle the high word, draw the low limbs, test `n < modulus`; state = (n, hi_word, stream, done) -/
+def rmTrip (n nl fuel : Nat) (modulus : List Sec) (mask : Sec) (st : List Sec × Sec × List Sec × Bool) :
+    L (Option (List Sec × Sec × List Sec × Bool)) := do
+  if st.2.2.2 then pure none else do
+  pubIndex (nl - 1)
+  let h ← rmHiLoop fuel (limb modulus (nl - 1)) mask st.2.1 st.2.2.1
+  let cand ← rmLowLoop nl h.2 ((zeros n).set (nl - 1) h.1)
+  let lt ← ult n cand modulus
+  let ok ← declassify lt                                  -- `if n.ct_lt(modulus).into() { break }`
+  if ok ≠ 0 then pure (some (cand, h.1, h.2.drop (nl - 1), true))
+  else pure (some (cand, and (limb h.2 (nl - 1)) mask, h.2.drop nl, false))
+
+/-- `random_mod_core(rng, n, modulus, n_bits)` with `n_bits` public and the RNG stream given as a list of words -/
+def randomModCore (n fuel nbits : Nat) (modulus stream : List Sec) : L (List Sec) := do
+  pubIndex ((nbits + 63) / 64 - 1)
+  let st ← whileFuel fuel (rmTrip n ((nbits + 63) / 64) fuel modulus (shr Sec.max (lz (limb modulus ((nbits + 63) / 64 - 1)))))
+    (zeros n, and (limb stream 0) (shr Sec.max (lz (limb modulus ((nbits + 63) / 64 - 1)))), stream.drop 1, false)
+  pure st.1
+
+/-- `Uint::random_mod(rng, modulus)` = `random_mod_core(rng, n, modulus, modulus.bits_vartime())` -/
+def randomMod (n fuel : Nat) (modulus stream : List Sec) : L (List Sec) := do
+  let nb ← bitsVartime n modulus
+  let nbits ← declassify nb
+  randomModCore n fuel nbits modulus stream
 
 end CB.Leak
